@@ -10,6 +10,9 @@ import json, os, subprocess, sys, time, hashlib, re, shutil, tempfile
 
 VERIF = os.path.dirname(os.path.abspath(__file__))
 REPO = os.environ.get("VERIF_REPO", "/repo")
+# Output directory for evidence/ and replays/ (the registered commands use /verif itself; the seeded-change
+# scripts point this elsewhere so that a run against a patched scratch tree never touches the real evidence).
+OUTDIR = os.environ.get("VERIF_OUT", None)
 SYMGO = os.path.join(VERIF, "bin", "symgo")
 sys.path.insert(0, VERIF)
 from props import PROPS  # noqa: E402
@@ -216,7 +219,7 @@ def observed_lines(out):
 def check(prop, tier):
     t0 = time.time()
     os.makedirs(os.path.join(VERIF, "scratch"), exist_ok=True)
-    os.makedirs(os.path.join(VERIF, "evidence"), exist_ok=True)
+    os.makedirs(os.path.join(OUTDIR or VERIF, "evidence"), exist_ok=True)
     ensure_symgo()
     cfg = PROPS[prop]
     known = [k for k in load_known() if k["property"] == prop and k.get("status") == "known"]
@@ -225,7 +228,7 @@ def check(prop, tier):
     results, new_viol, inconclusive = [], [], []
     known_seen = {}
     validated = 0
-    shutil.rmtree(os.path.join(VERIF, "replays", prop), ignore_errors=True)
+    shutil.rmtree(os.path.join(OUTDIR or VERIF, "replays", prop), ignore_errors=True)
     rp = Replayer(prop)
     try:
         for run in runs:
@@ -288,7 +291,7 @@ def check(prop, tier):
         e = [k for k in known if k["key"] == key][0]
         lines.append(f"KNOWN-FINDING: property={prop} {e['what']}")
     if new_viol:
-        rdir = os.path.join(VERIF, "replays", prop)
+        rdir = os.path.join(OUTDIR or VERIF, "replays", prop)
         os.makedirs(rdir, exist_ok=True)
         for run, v in new_viol:
             h = hashlib.sha1(json.dumps([run["harness"], v["msg"], v["model"], v["choices"]], sort_keys=True).encode()).hexdigest()[:12]
@@ -356,7 +359,7 @@ def write_evidence(prop, tier, cfg, results, known_seen, new_viol, inconclusive,
         "wall_s": round(wall, 2),
         "violations": len(new_viol),
     }
-    json.dump(ev, open(os.path.join(VERIF, "evidence", prop + ".json"), "w"), indent=1)
+    json.dump(ev, open(os.path.join(OUTDIR or VERIF, "evidence", prop + ".json"), "w"), indent=1)
 
 
 def replay(path):
